@@ -66,7 +66,14 @@ func (w *World) SyncFrom(dst *Fake) bool {
 		return false
 	}
 	src.mu.Lock()
+	// the file sync transfers snapshot files only: what the source wrote into its head after the snapshot taken
+	// when dst was added reaches dst solely through replication
 	data := append([]byte(nil), src.Data...)
+	if len(src.Chain) > 1 {
+		if sd, ok := src.SnapData[src.Chain[1]]; ok && len(dst.Chain) > 1 && dst.Chain[1] == src.Chain[1] {
+			data = append([]byte(nil), sd...)
+		}
+	}
 	chain := append([]string(nil), src.Chain...)
 	snaps := map[string][]byte{}
 	for k, v := range src.SnapData {
